@@ -142,6 +142,8 @@ pub struct PrConf {
     pub threads: usize,
     pub reuse: bool,
     pub k: usize,
+    /// iteration cap or-ed to the stopping predicate
+    pub cap: usize,
 }
 
 fn mode_of(m: u8) -> Mode {
@@ -171,7 +173,7 @@ pub fn run_impl(gt: &Graph, c: &PrConf) -> PrOut {
     let pref: Vec<f64> = c.weights.iter().map(|&w| w as f64 / wsum as f64).collect();
     let pool = rayon::ThreadPoolBuilder::new().num_threads(c.threads).build().unwrap();
     let pool1 = rayon::ThreadPoolBuilder::new().num_threads(1).build().unwrap();
-    let stop = || preds::L1Norm::try_from(eps).unwrap().or(preds::MaxIter::from(ITER_CAP));
+    let stop = || preds::L1Norm::try_from(eps).unwrap().or(preds::MaxIter::from(c.cap));
     macro_rules! body {
         ($pr:expr) => {{
             let mut pr = $pr;
@@ -214,7 +216,7 @@ pub fn case_line(id: &str, shape: &str, gt: &Graph, c: &PrConf, r: &Result<PrOut
         ["s", "w", "p"][c.mode as usize], c.epsexp, if c.gran.0 == 0 { "n" } else { "a" }, c.gran.1, c.threads, c.reuse as u8, c.k);
     match r {
         Ok(o) => {
-            let status = if o.iters >= ITER_CAP { "cap" } else { "ok" };
+            let status = if o.iters >= c.cap { "cap" } else { "ok" };
             s.push_str(&format!(" status={status} iters={} nd={:016x} x={} itk={} ndk={:016x} xk={}",
                 o.iters, o.nd.to_bits(), fmt_f64s(&o.x), o.itk, o.ndk.to_bits(), fmt_f64s(&o.xk)));
             s.push_str(&format!("\n#impl id={id} nd={:.16e} xdec={}", o.nd, fmt_dec(&o.x)));
@@ -241,7 +243,7 @@ pub fn run_cli(dir: &std::path::Path, gt: &Graph, c: &PrConf, parse: bool) -> Re
     let _ = std::fs::remove_file(&outp);
     let alpha = c.an as f64 / c.ad as f64;
     let mut args: Vec<String> = vec!["webgraph-rank".into(), "pagerank".into(), b, "--output".into(), outp.to_str().unwrap().into(),
-        "--alpha".into(), format!("{alpha}"), "--threshold".into(), format!("1e-{}", c.epsexp), "--max-iter".into(), ITER_CAP.to_string(),
+        "--alpha".into(), format!("{alpha}"), "--threshold".into(), format!("1e-{}", c.epsexp), "--max-iter".into(), c.cap.to_string(),
         "--mode".into(), ["strongly-preferential", "weakly-preferential", "pseudo-rank"][c.mode as usize].into(),
         "--num-threads".into(), c.threads.to_string()];
     if c.gran.0 == 0 { args.push("--node-granularity".into()); } else { args.push("--arc-granularity".into()); }
@@ -266,7 +268,7 @@ pub fn run_cli(dir: &std::path::Path, gt: &Graph, c: &PrConf, parse: bool) -> Re
             transpose: base.clone(),
             output: outp.clone(),
             alpha,
-            max_iter: Some(ITER_CAP),
+            max_iter: Some(c.cap),
             threshold: 10f64.powi(-(c.epsexp as i32)),
             preference: pref_path,
             preference_fmt: FloatSliceFormat::Ascii,
@@ -308,6 +310,7 @@ pub fn gen_conf(rng: &mut Rng, n: usize, arcs: usize) -> PrConf {
         threads: rng.pick(&[1usize, 2, 3, 4, 8, 16]),
         reuse: rng.chance(1, 4),
         // exact rational sweeps are expensive: fewer iterations on bigger graphs
+        cap: ITER_CAP,
         k: if arcs <= 40 { rng.range(1, 4) } else if arcs <= 120 { rng.range(1, 2) } else { 1 },
     }
 }
@@ -315,6 +318,16 @@ pub fn gen_conf(rng: &mut Rng, n: usize, arcs: usize) -> PrConf {
 pub fn run(seed: u64, count: usize, maxn: usize, out: &mut impl Write) {
     let mut rng = Rng::new(seed ^ 0x9A6E);
     let dir = tempfile::Builder::new().prefix("wgverif-prank").tempdir().unwrap();
+    // fixed witness of the known finding "stopping criterion unreachable": arc 1 -> 0,
+    // alpha = 0.99, weakly preferential, eps = 1e-12; the f64 iteration enters a cycle of
+    // period 2 after 2129 iterations with norm delta 1.4e-12
+    {
+        let gt: Graph = vec![vec![1], vec![]];
+        let c = PrConf { an: 99, ad: 100, weights: vec![], mode: 1, epsexp: 12, gran: (0, 10000), threads: 1, reuse: false, k: 2, cap: 20_000 };
+        let (gt2, c2) = (gt.clone(), c.clone());
+        let r = catch(std::panic::AssertUnwindSafe(move || run_impl(&gt2, &c2)));
+        writeln!(out, "{}", case_line("w0", "witness", &gt, &c, &r)).unwrap();
+    }
     for i in 0..count {
         let n = match rng.below(10) {
             0 => rng.range(0, 2),
